@@ -29,6 +29,16 @@ def cases(tier, seed):
     out = common.add_algs(plan + con + buf,
                           lambda c: common.shipped(c, lvl, "diag", False))
     out += common.add_algs(bat, lambda c: common.batch_algs(c, lvl)[:4])
+    # tier moves at non-integral rates: free space is fractional while a
+    # move is in flight
+    frac = []
+    for sc, c in common.thin(list(common.park2_scope(lvl)),
+                             27 if tier != "thorough" else 6):
+        cfg = dict(c["cfg"])
+        cfg["hot"] = [cfg["hot"][0], 2.5]
+        cfg["cold"] = [cfg["cold"][0], 1.5]
+        frac.append(("S-park2/fractional-rates", dict(c, cfg=cfg)))
+    out += common.add_algs(frac, common.park_algs, feasible_only=False)
     return common.rotate(out, seed)
 
 
